@@ -535,6 +535,51 @@ func checkC07(P *Program, r *Result, tier string) {
 	if builders == 0 {
 		r.fatal("no function rebuilding the hash table found")
 	}
+	// ---- REBUILD: whoever replaces the items leaves no way out on which the table still indexes the old ones ----
+	var writesTable func(f *ssa.Function, depth int) bool
+	writesTable = func(f *ssa.Function, depth int) bool {
+		if f == nil || f.Blocks == nil || depth > 3 {
+			return false
+		}
+		if len(storesTo(f, "hashtable")) > 0 {
+			return true
+		}
+		for _, c := range callsIn(f) {
+			if cal := c.Common().StaticCallee(); cal != nil && inRepo(cal) && cal != f && writesTable(cal, depth+1) {
+				return true
+			}
+		}
+		return false
+	}
+	loaders := 0
+	for _, fn := range fns {
+		if fn.Signature.Recv() == nil || len(storesTo(fn, "items")) == 0 || fn.Blocks == nil {
+			continue
+		}
+		loaders++
+		stop := func(in ssa.Instruction) bool {
+			if st, ok := in.(*ssa.Store); ok && recvFieldOf(fn, st.Addr) == "hashtable" {
+				return true
+			}
+			if c, ok := in.(ssa.CallInstruction); ok {
+				if cal := c.Common().StaticCallee(); cal != nil && inRepo(cal) && writesTable(cal, 0) {
+					return true
+				}
+			}
+			return false
+		}
+		for _, st := range storesTo(fn, "items") {
+			escapes, at := exitsWithout(st, stop)
+			detail := ""
+			if escapes && at != nil {
+				detail = "the exit at " + P.pos(instrPos(at)) + " is reached with the items replaced but the table neither rebuilt nor reset"
+			}
+			r.add("REBUILD", shortName(fn), "store", "after the items are replaced every way out rebuilds (or resets) the hash table that indexes them", P.pos(instrPos(st)), !escapes, detail)
+		}
+	}
+	if loaders == 0 {
+		r.fatal("no function replacing the items of a map found")
+	}
 	for _, fn := range fns {
 		if baseName(fn) != "Get" || fn.Signature.Recv() == nil || len(storesTo(fn, "hashtable")) > 0 {
 			continue
